@@ -563,6 +563,8 @@ impl Store {
                         #[cfg(xs_verif)]
                         crate::verif::emit(vhb.as_deref(), "hb.sent", serde_json::json!({}));
                     }
+                    #[cfg(xs_verif)]
+                    crate::verif::finish(vhb.as_deref());
                 });
             }
         }
@@ -690,13 +692,17 @@ impl Store {
         // Assigning the id, committing the frame and broadcasting it must happen in the same
         // order for every writer: otherwise a frame can become visible below an id that
         // readers have already seen, and subscribers receive frames out of id order.
-        let _append_guard = self.append_lock.lock().unwrap();
-
-        frame.id = scru128::new();
         #[cfg(xs_verif)]
         let vactor = crate::verif::actor();
         #[cfg(xs_verif)]
         let vactor = vactor.as_deref();
+        #[cfg(xs_verif)]
+        crate::verif::waiting(vactor, "append.lock");
+        let _append_guard = self.append_lock.lock().unwrap();
+        #[cfg(xs_verif)]
+        crate::verif::resumed(vactor);
+
+        frame.id = scru128::new();
         #[cfg(xs_verif)]
         {
             if let Some(id) = crate::verif::next_id() {
